@@ -8,5 +8,6 @@ CONSTANTS
   MaxBlockSize = 7788
   TimeoutPerChunk = FALSE
   SerErrorsFatal = TRUE
+  VersionSkew = 0
   Streams <- StreamsProbe
 INVARIANTS TypeOK NoDesync
